@@ -45,7 +45,7 @@ class ApiGen:
         for _ in range(4 + r.below(10)):
             k = r.weighted([('ok', 6), ('probe', 5), ('rterr', 3), ('parse', 2), ('pp', 2), ('type', 1), ('loop', 2), ('spawn', 1),
                             ('ppcall', 1), ('transpile', 1), ('status', 3), ('cfg', 2), ('new', 2), ('del', 1), ('bad', 1), ('long', 2),
-                            ('throw', 1), ('caught', 1)])
+                            ('throw', 1), ('caught', 1), ('spawnfail', 2)])
             if not inst and k not in ('new', 'bad'):
                 k = 'new'
             self.note(k)
@@ -112,6 +112,22 @@ class ApiGen:
             elif k == 'throw':
                 code = 'throw 1; ga = 1'
                 rc = -6
+            elif k == 'spawnfail':
+                # scripts that are still pending when the call fails are discarded with it: they never run, neither
+                # now nor inside a later call (their global stays unset, which later probes observe)
+                g = r.choice([x for x in GLOBALS if x not in I['globals']] or ['gz'])
+                form = r.below(4)
+                if form == 0:
+                    code = '[] spawn { %s = 5 }; %s' % (g, ERR)
+                elif form == 1:
+                    code = '[] spawn { sleep 0.01; %s = 5 }; [] spawn { while { true } do { sleep 0.01 } }; [1] select 3' % g
+                elif form == 2:
+                    code = '[] spawn { %s = 5 }; throw 2' % g
+                else:
+                    code = '[] spawn { sleep 0.02; %s = 5 }; [] spawn { %s }; 1' % (g, ERR)
+                    rc = None
+                if rc is not None:
+                    rc = -6
             elif k == 'caught':
                 g = r.choice(GLOBALS)
                 code = 'try { throw 1 } catch { %s = _exception }; 2' % g
